@@ -276,6 +276,15 @@ def check_link_classes(t):
         elif not hasattr(link, "colour") or hasattr(link, "no_such_attribute"):
             why = "hasattr on the link disagrees with the target"
         else:
+            missing_before = not hasattr(link, "appears_later")
+            tgt.appears_later = 5
+            if not missing_before or read_attr(link, "appears_later") != ("val", 5):
+                why = "an attribute the target gets later is not readable through the link (after an earlier failed read)"
+            tgt.__dict__.pop("appears_later", None)
+            link.alias = link                      # any value is forwarded, the link itself included
+            if tgt.__dict__.get("alias") is not link:
+                why = why or "assignment of the link itself as an attribute VALUE was not stored on the target"
+            tgt.__dict__.pop("alias", None)
             link.colour = "green"
             link.fresh = 1
             if tgt.colour != "green" or getattr(tgt, "fresh", None) != 1:
